@@ -287,6 +287,36 @@ static void call_gemm(char *args)
     free(c0);
 }
 
+/* ------------------------------------------------------------------ MC64 heap routines (C17): driven operation by operation */
+extern int_t mc64dd_(int_t *, int_t *, int_t *, double *, int_t *, int_t *);
+extern int_t mc64ed_(int_t *, int_t *, int_t *, double *, int_t *, int_t *);
+extern int_t mc64fd_(int_t *, int_t *, int_t *, int_t *, double *, int_t *, int_t *);
+/* heap <iway> <n> / keys k1..kn / ops: I<i> insert row i, E extract the root, F<i> remove row i from the middle,
+ * D<i>:<k> give row i the key k (min-heap: smaller, max-heap: larger) and push it up.  The protocol is the one of
+ * mc64wd_ / mc64bd_ (the caller maintains qlen and l[] around the calls). One event per operation. */
+static void call_heap(char *args)
+{
+    int iw = 2, n = 0; if (sscanf(args, "%d %d", &iw, &n) < 2 || n < 1 || n > 60) return;
+    int_t iway = iw, nn = n, qlen = 0;
+    int_t *q = calloc(n + 2, sizeof(int_t)), *l = calloc(n + 2, sizeof(int_t)); double *d = calloc(n + 2, sizeof(double));
+    char *p = nextline(); for (int i = 0; i < n; i++) d[i] = rdnum(&p);
+    char *ops = nextline(); int step = 0;
+    for (char *t = strtok(ops, " \t\r\n"); t; t = strtok(NULL, " \t\r\n")) {
+        char op = t[0]; int_t i = atoi(t + 1), removed = 0;
+        if (op == 'I' && i >= 1 && i <= n && l[i - 1] == 0) { ++qlen; l[i - 1] = qlen; mc64dd_(&i, &nn, q, d, l, &iway); }
+        else if (op == 'E' && qlen > 0) { removed = q[0]; mc64ed_(&qlen, &nn, q, d, l, &iway); l[removed - 1] = 0; }
+        else if (op == 'F' && i >= 1 && i <= n && l[i - 1] != 0) { removed = i; mc64fd_(&l[i - 1], &qlen, &nn, q, d, l, &iway); l[i - 1] = 0; }
+        else if (op == 'D' && i >= 1 && i <= n && l[i - 1] != 0) { char *c2 = strchr(t, ':'); if (c2) d[i - 1] = strtod(c2 + 1, NULL); mc64dd_(&i, &nn, q, d, l, &iway); }
+        else continue;
+        fprintf(OUT, "{\"e\":\"Ret\",\"id\":\"%s\",\"fn\":\"heap\",\"ty\":\"" TYCH "\",\"iway\":%d,\"n\":%d,\"step\":%d,\"op\":\"%c\",\"arg\":%d,\"removed\":%d,\"qlen\":%d,\"Q\":[", g_id, iw, n, step++, op, (int)i, (int)removed, (int)qlen);
+        for (int k = 0; k < qlen && k < n; k++) fprintf(OUT, "%s%d", k ? "," : "", (int)q[k]);
+        fputs("],\"L\":[", OUT); for (int k = 0; k < n; k++) fprintf(OUT, "%s%d", k ? "," : "", (int)l[k]);
+        fputs("],\"keys\":[", OUT); for (int k = 0; k < n; k++) fprintf(OUT, "%s%ld", k ? "," : "", lround(d[k]));
+        fputs("]}\n", OUT);
+    }
+    free(q); free(l); free(d);
+}
+
 /* ------------------------------------------------------------------ ordering (C10) */
 static void call_order(char *args)
 {
@@ -409,11 +439,17 @@ static void call_bridge(char *args)
     /* bridge <iopt> <slot>: uses the current context's matrix (1-based copy) and right-hand side */
     ctx_t *c = cx; int iopt = 0, slot = 0; sscanf(args, "%d %d", &iopt, &slot); slot &= 3;
     int n = c->n, nrhs = c->haveB ? c->nrhs : 1, ldb = c->haveB ? c->ldb : n; int_t nnz = c->nnz, info = -9999;
-    /* 1-based copies, as a Fortran caller would hold them */
-    int_t *ri = (int_t *)malloc((nnz + 1) * sizeof(int_t)), *cp = (int_t *)malloc((n + 2) * sizeof(int_t));
-    val_t *va = (val_t *)malloc((nnz + 1) * sizeof(val_t));
+    /* 1-based copies, as a Fortran caller would hold them: in pages of their own which are read-only while the bridge
+     * runs (the matrix arrays are inputs; other threads of the caller may be reading them: FORTRAN/test_omp.F) */
+    long pg = sysconf(_SC_PAGESIZE);
+    size_t sz_ri = (((nnz + 1) * sizeof(int_t)) / pg + 1) * pg, sz_cp = (((n + 2) * sizeof(int_t)) / pg + 1) * pg, sz_va = (((nnz + 1) * sizeof(val_t)) / pg + 1) * pg;
+    int_t *ri = (int_t *)mmap(NULL, sz_ri, PROT_READ | PROT_WRITE, MAP_PRIVATE | MAP_ANONYMOUS, -1, 0);
+    int_t *cp = (int_t *)mmap(NULL, sz_cp, PROT_READ | PROT_WRITE, MAP_PRIVATE | MAP_ANONYMOUS, -1, 0);
+    val_t *va = (val_t *)mmap(NULL, sz_va, PROT_READ | PROT_WRITE, MAP_PRIVATE | MAP_ANONYMOUS, -1, 0);
+    if (ri == MAP_FAILED || cp == MAP_FAILED || va == MAP_FAILED) { fprintf(stderr, "sluh: mmap failed\n"); _exit(98); }
     for (int_t i = 0; i < nnz; i++) { ri[i] = c->idx[i] + 1; va[i] = c->a[i]; }
     for (int i = 0; i <= n; i++) cp[i] = c->ptr[i] + 1;
+    mprotect(ri, sz_ri, PROT_READ); mprotect(cp, sz_cp, PROT_READ); mprotect(va, sz_va, PROT_READ);
     uint64_t d0 = fnv(ri, nnz * sizeof(int_t)) ^ fnv(cp, (n + 1) * sizeof(int_t)) ^ fnv(va, nnz * sizeof(val_t));
     snap_t s; take_snap(c, &s);
     long mark = slu_v_mark(); slu_v_ledger_t l0; slu_v_get(&l0);
@@ -424,7 +460,7 @@ static void call_bridge(char *args)
     fprintf(OUT, ",\"iopt\":%d,\"slot\":%d,\"info\":%lld,\"arrays_same\":%d,\"live_delta\":%ld,\"live\":%ld", iopt, slot, (long long)info, d0 == d1, l1.live_blocks - l0.live_blocks, l1.live_blocks);
     snap_json(c, &s);
     fprintf(OUT, ",\"bad_frees\":%ld,\"redzone\":%ld}\n", l1.bad_frees, l1.redzone_hits + slu_v_sweep());
-    free_snap(&s); free(ri); free(cp); free(va); (void)mark;
+    free_snap(&s); munmap(ri, sz_ri); munmap(cp, sz_cp); munmap(va, sz_va); (void)mark;
 }
 #endif
 
@@ -441,6 +477,7 @@ static int extra_call(const char *fn, char *args)
     if (!strcmp(fn, "ata")) { call_struct(0); return 1; }
     if (!strcmp(fn, "aplusat")) { call_struct(1); return 1; }
     if (!strcmp(fn, "ldperm")) { call_ldperm(args); return 1; }
+    if (!strcmp(fn, "heap")) { call_heap(args); return 1; }
     if (!strcmp(fn, "read")) { call_read(args); return 1; }
     if (!strcmp(fn, "bridge")) { call_bridge(args); return 1; }
     return 0;
